@@ -85,6 +85,7 @@ def scenario():
     import re
     pat = re.compile(r"^([\-+]?)(\d+)[:; ](\d+)(?:[:; ](\d+))?(\.\d*)?$")
     out.append([pat.match("-12:30").groups(), pat.match("1 2;3.5").groups(), pat.match("12") is None, re.match(r"^\d+\Z", "12\n") is None,
+                re.match(r"^\d+|x\d$", "12abc") is not None, re.match(r"^\d+|x\d$", "x1z") is None, re.match(r"^(?:ab|cd)+$", "abcdab") is not None, re.match(r"^(?:ab|cd)+$", "abc") is None,
                 "a:b".rfind(":", 0, 2), "a:b:c".rfind(":", 0, 3), "abc".rfind("z", 1)])
     # % formatting and f-strings
     out.append(["%.2f" % 1.005, "%d" % 3.9, f"{7:02d}:{3.14159:04.1f}", "%8.2f" % 3.5])
